@@ -1,4 +1,5 @@
 //! C05 — every record the library hands out is valid (always-signed invariant).
+use crate::refmodel::record::KeyType;
 use crate::case::*;
 use crate::cases::Case;
 use crate::choices::Choices;
@@ -120,22 +121,55 @@ impl Property for C05 {
     }
     fn enumerate(&self, quick: bool) -> Box<dyn Iterator<Item = Case> + Send + '_> {
         if quick {
-            Box::new([FamId::K256, FamId::CombinedEd, FamId::Var].into_iter().flat_map(|f| history::exhaustive(f, 2)).chain(history::depth1_rest(&[FamId::K256, FamId::CombinedEd, FamId::Var])).chain(history::long_repeats(true)).map(Case::Hist))
+            Box::new([FamId::K256, FamId::CombinedEd, FamId::Var].into_iter().flat_map(|f| history::exhaustive(f, 2)).chain(history::depth1_rest(&[FamId::K256, FamId::CombinedEd, FamId::Var])).chain(history::long_repeats(true)).map(Case::Hist).chain(crate::props::c02::C02.enumerate(true)))
         } else {
             let d3 = [FamId::K256].into_iter().flat_map(|f| history::exhaustive(f, 3));
             let d2 = ALL_FAMS.into_iter().filter(|f| *f != FamId::K256).flat_map(|f| history::exhaustive(f, 2));
-            Box::new(d3.chain(d2).chain(history::long_repeats(false)).map(Case::Hist))
+            Box::new(d3.chain(d2).chain(history::long_repeats(false)).map(Case::Hist).chain(crate::props::c02::C02.enumerate(false)))
         }
     }
     fn fuzz_plans(&self) -> Vec<(&'static str, u64)> {
         vec![("history", 10000)]
     }
     fn gen(&self, c: &mut Choices) -> Case {
-        Case::Hist(history::gen_history(c, None))
+        if c.chance(40) {
+            // "every record obtained with Ok ... from decoding": byte inputs (valid, tampered, structurally
+            // mutated and re-signed, incl. records without an id or with another id, signed as they stand)
+            crate::props::c02::C02.gen(c)
+        } else {
+            Case::Hist(history::gen_history(c, None))
+        }
     }
     fn check(&self, case: &Case, st: &mut Stats) -> Result<(), String> {
         match case {
             Case::Hist(h) => check_history(h, st, case),
+            Case::Wire(w) => {
+                // whatever the decoder hands out, under any key type, satisfies the invariant
+                for kt in crate::refmodel::record::key_types_in_order(crate::case::case_hash(&w.bytes)) {
+                    st.evals(1);
+                    let r: Result<bool, String> = crate::with_key_type!(kt, K => {
+                        match crate::exec::guarded(|| <enr::Enr<K> as alloy_rlp::Decodable>::decode(&mut w.bytes.as_slice())) {
+                            Ok(Ok(e)) => {
+                                let s = crate::exec::snap(&e);
+                                let fam = match kt {
+                                    KeyType::K256 => FamId::K256,
+                                    KeyType::Libsecp => FamId::Libsecp,
+                                    KeyType::Ed => FamId::Ed,
+                                    KeyType::Combined => if secp_valid_entry(&s.pairs) { FamId::CombinedSecp } else { FamId::CombinedEd },
+                                };
+                                valid_record::<K>(fam, &s, &e).map(|_| true).map_err(|m| format!("[{kt:?}] a record handed out by decode ({}): {m}", w.label))
+                            }
+                            _ => Ok(false),
+                        }
+                    });
+                    if r? {
+                        st.label("wire-accepted");
+                        st.nontrivial(&(kt, &w.bytes));
+                        st.sample("wire-accepted", || json!(case));
+                    }
+                }
+                Ok(())
+            }
             _ => Err("C05: wrong case type".into()),
         }
     }
